@@ -160,4 +160,49 @@ theorem c07_published_is_own_timer (now : Nat) (items : List CdItem) :
     · apply ih _ hp.2 i hmem hr
       split <;> simp [hc]
 
+/-! ### which timer a request starts (supla_esp_gpio_relay_set_duration_timer) -/
+
+/-- **C07.5a (restore keeps the remaining time)** the call the restore branch makes - value as saved, duration = the saved
+    remaining time, which is also what is published at that moment - starts a timer of exactly the saved remaining time that
+    switches back, whether or not the channel has a staircase time and whatever the countdown capability -/
+theorem c07_restore_keeps_remaining (time2 left : Nat) (f : Bool) (h : 0 < left) :
+    let i : DurIn := { time2 := time2, newValue := 1, dur := left, left := left, cdFlag := f }
+    i.eff = left ∧ i.arms = true ∧ i.target = 0 := by
+  have he : ({ time2 := time2, newValue := 1, dur := left, left := left, cdFlag := f } : DurIn).eff = left := by
+    unfold DurIn.eff
+    by_cases ht : time2 > 0
+    · rw [if_pos ht]
+      simp only
+      rw [if_neg (by decide), if_neg (by omega)]
+    · rw [if_neg ht]
+  refine ⟨he, ?_, by simp [DurIn.target]⟩
+  unfold DurIn.arms
+  rw [he]
+  simp; omega
+
+/-- **C07.5b (a relay restored as off, or a channel without the capability, starts nothing)** -/
+theorem c07_off_without_capability_no_timer (i : DurIn) (h0 : i.newValue = 0) (hf : i.cdFlag = false) : i.arms = false := by
+  simp [DurIn.arms, h0, hf]
+
+/-- **C07.5c (staircase)** on a channel with a staircase time every switch-on that is not the restore call runs exactly the
+    configured time, and a switch-off runs nothing -/
+theorem c07_staircase (i : DurIn) (ht : 0 < i.time2) :
+    (i.newValue = 0 → i.eff = 0 ∧ i.arms = false) ∧
+    (i.newValue = 1 → (i.dur = 0 ∨ i.left ≠ i.dur) → i.eff = i.time2 ∧ i.arms = true ∧ i.target = 0) := by
+  refine ⟨fun h0 => ?_, fun h1 hd => ?_⟩
+  · simp [DurIn.eff, DurIn.arms, ht, h0]
+  · have : i.eff = i.time2 := by
+      unfold DurIn.eff
+      rw [if_pos ht, if_neg (by omega), if_pos hd]
+    refine ⟨this, ?_, by simp [DurIn.target, h1]⟩
+    simp [DurIn.arms, this, h1]; omega
+
+/-- **C07.5d (plain channel)** without a staircase time the timer runs the requested duration, and is started exactly for
+    a positive duration on a switch-on or on a channel with the countdown capability -/
+theorem c07_plain_duration (i : DurIn) (ht : i.time2 = 0) :
+    i.eff = i.dur ∧ (i.arms = true ↔ 0 < i.dur ∧ (i.newValue = 1 ∨ i.cdFlag = true)) := by
+  have : i.eff = i.dur := by unfold DurIn.eff; rw [if_neg (by omega)]
+  refine ⟨this, ?_⟩
+  simp [DurIn.arms, this]
+
 end SuplaVerif.C07
